@@ -44,6 +44,7 @@ PLANS = {
             S("c02_reuse", 500, 15000),   # one aio reused across operation kinds: nothing leaks from one use to the next
             S("c02_many", 300, 6000),
             S("c07_collect", 600, 18000, label="collect"),  # aio reuse with absolute expirations (surveyor protocol)
+            S("c02_httptxn", 600, 20000),  # nng_http_transact against a raw server that stalls: time-outs and cancels landing between the steps of the transaction (scenarios/c02d_httptxn.cc)
             S("c02_accept", 500, 15000),  # a stream listener's pending accept against close / cancel / time-out / a dialer (scenarios/c02c_accept.cc)
             S("c04_latecancel", 300, 10000, label="latecancel"),  # a cancel code only for an operation that was cancelled
             S("c10_device", 400, 12000, label="device"),  # nng_device_aio must complete after cancel/timeout also while traffic flows     # up to 260 deadlines in the same instant: none forgotten, none early
